@@ -273,6 +273,11 @@ func verifMachineMem(k int, caps []int64) (system.System, []*libmem.Node, int) {
 			{ID: 1, MemType: system.MemoryTypeDRAM, Normal: true, Distance: []int{21, 10, 28}},
 			{ID: 2, MemType: system.MemoryTypePMEM, Normal: true, Distance: []int{17, 28, 10}},
 		}
+	case 5: // 1 socket, 1 NUMA node, 4 cores x 2 threads: a single pool
+		for id := 0; id < 8; id++ {
+			cpus = append(cpus, system.VerifCPU{ID: id, Core: id / 2, Cluster: id / 2, Kind: P, EPP: system.EPPUnknown, CacheGroup: -1})
+		}
+		nodes = []system.VerifNode{{ID: 0, MemType: system.MemoryTypeDRAM, Normal: true, Distance: []int{10}}}
 	case 4: // as 2, but NUMA node 1 has no memory, plus a CPU-less PMEM node #4 closest to node 1
 		for id := 0; id < 8; id++ {
 			cpus = append(cpus, system.VerifCPU{ID: id, Pkg: id / 4, Node: id / 2, Core: id / 2, Cluster: id / 2, Kind: P, EPP: system.EPPUnknown, CacheGroup: -1})
